@@ -333,5 +333,62 @@ def register(g):
               f'/-- the durations (whole seconds) that occur in those files: candidates for a time-out to wait out when searching for a failing input -/\n'
               f'def durationsSeen : List Nat := [{", ".join(str(x) for x in sorted(set(secs)))}]\nend Rj.Generated\n')
 
+    def run_skel():
+        """control skeleton of execute_spec: the exit code of each failure path, which comms each path shuts down, whether the per-sync
+        error arm returns at once, and the function's final value"""
+        import re as _re
+        fe = strip_comments(read('src/boss_frontend.rs'))
+        body = fn_body(fe, 'execute_spec') or ''
+        def code_after(pos, limit):
+            m = _re.search(r'return\s+ExitCode::from\(\s*(\d+)\s*\)', body[pos:limit])
+            return (int(m.group(1)), pos + m.start()) if m else (None, None)
+        # the two launches: `let mut X_comms = match setup_comms(...) { Ok(c) => c, Err(e) => { ...; return ExitCode::from(n); } };`
+        launches = [m for m in _re.finditer(r'let\s+mut\s+(src|dest)_comms\s*=\s*match\s+setup_comms\s*\(', body)]
+        ok = len(launches) == 2 and [m.group(1) for m in launches] == ['src', 'dest']
+        src_code = dest_code = None; dest_shuts_src = False
+        i_loop = body.find('for sync_spec in &spec.syncs')
+        if ok and i_loop > launches[1].start():
+            src_code, _ = code_after(launches[0].start(), launches[1].start())
+            dest_code, at = code_after(launches[1].start(), i_loop)
+            if at is not None:
+                arm = body[launches[1].start():at]
+                dest_shuts_src = 'src_comms.shutdown()' in arm[arm.rfind('Err('):]
+        # the loop: every sync of the spec, in order, one `sync(...)` call, `match sync_result { Ok(()) => (), Err(e) => {...} }`
+        loop_ok = False; err_ret = None; err_shuts = False
+        final_shuts = False; final_success = False
+        if i_loop >= 0:
+            j = body.find('{', i_loop); depth = 0; end = None
+            for q in range(j, len(body)):
+                if body[q] == '{': depth += 1
+                elif body[q] == '}':
+                    depth -= 1
+                    if depth == 0: end = q; break
+            lp = body[j:end] if end else ''
+            m_arm = _re.search(r'match\s+sync_result\s*\{\s*Ok\(\(\)\)\s*=>\s*\(\)\s*,\s*Err\(\w+\)\s*=>\s*\{(.*?)\}\s*\}', lp, _re.S)
+            calls = len(_re.findall(r'\bsync\s*\(', lp))
+            loop_ok = m_arm is not None and calls == 1 and not _re.search(r'\b(break|continue)\b', lp) and len(_re.findall(r'for\s+sync_spec\s+in', body)) == 1
+            if m_arm:
+                arm = m_arm.group(1)
+                m_r = _re.search(r'return\s+ExitCode::from\(\s*(\d+)\s*\)\s*;\s*$', arm.strip())
+                if m_r:
+                    err_ret = int(m_r.group(1))
+                    before = arm[:arm.rfind('return')]
+                    err_shuts = before.count('src_comms.shutdown()') == 1 and before.count('dest_comms.shutdown()') == 1
+            tail = body[end + 1:] if end else ''
+            final_shuts = tail.count('src_comms.shutdown()') == 1 and tail.count('dest_comms.shutdown()') == 1
+            final_success = _re.search(r'ExitCode::SUCCESS\s*\}?\s*$', tail.strip()) is not None and 'return' not in tail and 'ExitCode::from' not in tail
+        # no other way out of the function, no exit code kept in a variable
+        returns = len(_re.findall(r'\breturn\b', body))
+        plain = returns == (1 if src_code is not None else 0) + (1 if dest_code is not None else 0) + (1 if err_ret is not None else 0) and not _re.search(r'let\s+mut\s+\w*(exit|code|status|result)\w*\s*[:=]', body)
+        recognised = ok and src_code is not None and dest_code is not None and loop_ok and plain
+        if not recognised:
+            status['run-skel'] = 'execute_spec: shape not recognised / differs from the reference skeleton'
+        b = lambda x: 'true' if x else 'false'
+        o = lambda x: 'none' if x is None else f'(some {x})'
+        write('RunSkel.lean', 'import RjModel.Model.Run\nnamespace Rj.Generated\n' +
+              f'/-- the function has exactly the recognised shape: two launches, one loop over all syncs with one sync call, no other exits -/\n'
+              f'def runSkelRecognised : Bool := {b(recognised)}\n'
+              f'def runSkel : Run.RunSkel := ⟨{src_code or 0}, {dest_code or 0}, {b(dest_shuts_src)}, {o(err_ret)}, {b(err_shuts)}, {b(final_shuts)}, {b(final_success)}⟩\nend Rj.Generated\n')
+
     g_ = g
-    return {'link_socket': link_socket, 'session': session, 'defaults': defaults, 'skeletons': skeletons, 'sites': sites, 'shutdown': shutdown, 'panic_sites': panic_sites, 'walker': walker, 'slash_table': slash_table}
+    return {'run_skel': run_skel, 'link_socket': link_socket, 'session': session, 'defaults': defaults, 'skeletons': skeletons, 'sites': sites, 'shutdown': shutdown, 'panic_sites': panic_sites, 'walker': walker, 'slash_table': slash_table}
